@@ -130,6 +130,26 @@ def run(ctx, R):
                 else:
                     R.ok("r2", "any/%s" % v)
 
+    # r4: a value the target does not declare is skipped without being decoded. serde asks for that with deserialize_ignored_any; if
+    # the request is funnelled into deserialize_any, every arm of deserialize_any that panics (today: Enum -> todo!(), a listed
+    # finding for *declared* fields) also fires for undeclared keys, and rows that decode today stop decoding.
+    R.rule("r4", "skipped (undeclared) values are not decoded: deserialize_ignored_any does not reach a panicking arm of deserialize_any")
+    ig = fns.get("deserialize_ignored_any")
+    anyf = fns.get("deserialize_any")
+    panicking = []
+    if anyf is not None:
+        ms_ = matches_over(anyf["body"], FV, 4)
+        for v, arms in (variant_table(ms_[0], FV) if ms_ else {}).items():
+            panicking += [v for a in arms if is_panic_arm(C, a["body"])]
+    if ig is None:
+        R.fail("r4", "anchor/deserialize_ignored_any", "-", "FieldValueDeserializer has no deserialize_ignored_any")
+    else:
+        forwards = any(c.get("name") == "deserialize_any" for c in calls_in(ig["body"]))
+        R.check(not (forwards and panicking), "r4", "ignored-values-not-decoded", C.loc(ig["sp"]),
+                "deserialize_ignored_any forwards to deserialize_any, which panics for FieldValue::%s: a row / parameter map with an "
+                "undeclared key holding such a value no longer decodes its declared fields" % "/".join(sorted(set(panicking))),
+                {"forwards": forwards, "panicking_arms": sorted(set(panicking))})
+
     # r3
     f = fns.get("deserialize_tuple")
     if f is None:
